@@ -19,7 +19,12 @@ class TealLabel(TealComponent):
         return self.label
 
     def assemble(self) -> str:
-        comment = "\n// {}\n".format(self.comment) if self.comment is not None else ""
+        comment = ""
+        if self.comment is not None:
+            # one "//" line per line of the comment, so that no part of it is read as code
+            comment = "\n" + "".join(
+                "// {}\n".format(line) for line in self.comment.splitlines() or [""]
+            )
         return "{}{}:".format(comment, self.label.getLabel())
 
     def __repr__(self) -> str:
